@@ -1,10 +1,20 @@
 -------------------------- MODULE MC_TransTableSim --------------------------
-(* simulation: histories of table operations for replay on the real ClientTransportMgr through the real proxy *)
+(* Simulation: histories of table operations for replay on the real           *)
+(* ClientTransportMgr THROUGH the real proxy (TCP listener, message loop).    *)
+(* What can be made to happen from outside: a connection is dialled once      *)
+(* (Acc) before it carries requests; tick sizes keep every comparison of the  *)
+(* code at least 2 s away from its threshold (the driver shifts the table's   *)
+(* clocks, real seconds keep passing).                                        *)
 EXTENDS MC_TransTable, Json, CSV, IOUtils
-VARIABLE hist
-mcvars == <<vars, hist>>
-MCInit == Init /\ hist = <<>>
-MCNext == /\ Next
+SimTicks == {25, 70, 3650}
+VARIABLES hist, accd
+mcvars == <<vars, hist, accd>>
+MCInit == Init /\ hist = <<>> /\ accd = {}
+MCNext == /\ \/ \E c \in Conns \ accd : Acc(c) /\ accd' = accd \cup {c}
+             \/ \E c \in accd, t \in Txs : Req(c, t) /\ UNCHANGED accd
+             \/ \E d \in Dests, t \in Txs \cup {""}, f \in BOOLEAN : SendTcp(d, t, f) /\ UNCHANGED accd
+             \/ \E d \in Dests, f \in BOOLEAN : SendUdp(d, f) /\ UNCHANGED accd
+             \/ \E n \in Ticks : TickA(n) /\ UNCHANGED accd
           /\ hist' = Append(hist, [op |-> last'.op, c |-> last'.c, proto |-> last'.key[1], d |-> last'.key[2], t |-> last'.key[3],
                                    final |-> last'.final, n |-> s'.now - s.now])
 MCSpec == MCInit /\ [][MCNext]_mcvars
